@@ -20,6 +20,11 @@ def run(ctx):
 
     ctx.attempt(committed_state_invariance_rule, ctx)
     ctx.attempt(_ptr, ctx, "R19.14", scope=lambda f: f.module.name.startswith(("EasyFEA.Models.InElastic", "EasyFEA.Simulations._inelastic")))
+    # 'plane stress leaves no out-of-plane stress': the out-of-plane strain is solved at the internal state the caller holds
+    ctx.attempt(_ptr, ctx, "R19.16", scope=lambda f: f.module.name.startswith("EasyFEA.Models.InElastic"), pname="z_e_pg", min_instances=4)
+    from .c16 import stress_read_state_rule as _stress_read_state_rule
+
+    ctx.attempt(_stress_read_state_rule, ctx, "R19.17")
     from ..shared import zero_argument_division_rule as _zero_argument_division_rule
 
     ctx.attempt(_zero_argument_division_rule, ctx, "R19.13", scope=lambda f: f.module.name.startswith(("EasyFEA.Models.InElastic", "EasyFEA.Simulations._inelastic")))
